@@ -119,7 +119,7 @@ def check_C05(run, replay=None):
         cases = json.load(open(replay)).get("cases", cases)
     panics = [c for c in cases if c.get("panic")]
     cases = [c for c in cases if not c.get("panic")]
-    nsh = 16
+    nsh = max(16, (len(cases) + 249) // 250)      # 12 traces per case: at most ~250 cases per coqc process (memory)
     shards = [s for s in (cases[i::nsh] for i in range(nsh)) if s]
     texts = [HEADER + "Definition cs : list hcase := [\n" + ";\n".join("(%s, %s, %s, %s)" % (c["prog"], c["inputs"], c["acts"], c["traces"]) for c in sh)
              + "].\nEval vm_compute in (verdicts_C05 cs).\n" for sh in shards]
